@@ -111,6 +111,7 @@ MInit ==
       immk |-> {},         \* <<r, i>> of ops that are immediate calls from an exclusive body
       deadop |-> FALSE,    \* some register / revoke op named an entity that was already despawned when it was applied
       taint |-> {},        \* commands whose start overlapped another pending delivery to the same system (finding F1)
+      taintsys |-> {},     \* systems hit by finding F1 in the current tree: their tracker entries stay shifted until they drain
       viol |-> {} ]
 
 WSys(m, w) == m.nsys + m.nonce + w
@@ -517,7 +518,7 @@ OnEnter(m, o) ==
              \* finding F1: another delivery to the same system is applied but has neither started nor been postponed yet
              \* (it is inside its runner's entry poll, which is dispatching this one)
              inflight == { j \in DOMAIN m.cmd : m.cmd[j].s = c.s /\ m.cmd[j].st = "reached" }
-             m2 == IF inflight # {} THEN [m1 EXCEPT !.taint = @ \cup inflight \cup {o.k}] ELSE m1
+             m2 == IF inflight # {} THEN [m1 EXCEPT !.taint = @ \cup inflight \cup {o.k}, !.taintsys = @ \cup {c.s}] ELSE m1
          IN Push([m2 EXCEPT !.cmd = Put(@, o.k, [c EXCEPT !.seq = o.k]), !.last = NoCmd],
                  [f |-> "cmd", k |-> o.k, s |-> c.s, took |-> FALSE, r |-> 0, bd |-> FALSE, fin |-> FALSE, lastop |-> 0, idx |-> o.idx, rel |-> FALSE])
 
@@ -557,7 +558,7 @@ OnTake(m, o) ==
         older == { j \in DOMAIN m.cmd : j # o.k /\ m.cmd[j].s = c.s /\ m.cmd[j].st \in Pending /\ m.cmd[j].seq < c.seq }
         \* (a REPLAYED command with an older pending one is simply out of order - not this finding)
         \* (the finding propagates: a command that starts while an already affected older delivery is still pending takes its entry)
-        m6 == IF older # {} /\ (c.st = "reached" \/ older \cap m.taint # {}) THEN [m5 EXCEPT !.taint = @ \cup older \cup {o.k}] ELSE m5
+        m6 == IF older # {} /\ (c.st = "reached" \/ older \cap m.taint # {}) THEN [m5 EXCEPT !.taint = @ \cup older \cup {o.k}, !.taintsys = @ \cup {c.s}] ELSE m5
     IN SetCmd(m6, o.k, "running")
 
 Elems(v) == { v[i] : i \in DOMAIN v }
@@ -582,7 +583,9 @@ OnRun(m, o) ==
         surplus == \E x \in Elems(o.view) : x \notin Elems(exp)
         other == \E j \in DOMAIN m.cmd : j # t.k /\ m.cmd[j].s = c.s /\ m.cmd[j].sr = c.sr /\ c.sr # 0
                         /\ Len(ExpView(m.cmd[j])) > 0 /\ ExpView(m.cmd[j])[1] \in Elems(o.view)
-        tainted == t.k \in m.taint
+        \* once a polled reaction has taken another delivery's entry, every later delivery to that system in the same tree gets
+        \* the entry of its predecessor (the entries of the system stay shifted by one until they have all been consumed)
+        tainted == t.k \in m.taint \/ c0.s \in m.taintsys
         m4 == IF bad THEN V(m3, "C03", IF tainted THEN F1Why
                                        ELSE "a run did not see exactly the data of the event that caused it") ELSE m3
         m5 == IF surplus THEN V(m4, "C04", IF tainted THEN F1Why
@@ -684,22 +687,25 @@ OnPollend(m, o) ==
 OnProbe(m, o) == Chk(m, o.view = <<>>, "C04", "event data visible outside the run it caused")
 
 EvClass(k) == IF k \in {"bc", "eev"} THEN "ev" ELSE k
-OnDrop(m, o) ==
-    LET pr0 == PayRec(m, o.p)
-        \* a pending reader of this payload, and a resolved delivery to the same system whose own payload is still
-        \* held: the framework released them in the other order (see SwapData) - exchange and carry on
-        rd == { k \in DOMAIN m.cmd : m.cmd[k].p = o.p /\ m.cmd[k].st \in Pending }
-        rs == { j \in DOMAIN m.cmd : m.cmd[j].st \in {"aborted", "discarded", "ran"} /\ m.cmd[j].p # 0 /\ m.cmd[j].p # o.p
+RECURSIVE DropExchange(_, _)
+DropExchange(m, p) ==
+    (* a pending reader of this payload, and a resolved delivery to the same system whose own payload is still held: the      *)
+    (* framework released them in the other order (setup takes the oldest entry of the system, see SwapData) - exchange, and   *)
+    (* repeat while it applies (several readers of one payload may each have been overtaken)                                  *)
+    LET pr0 == PayRec(m, p)
+        rd == { k \in DOMAIN m.cmd : m.cmd[k].p = p /\ m.cmd[k].st \in Pending }
+        rs == { j \in DOMAIN m.cmd : m.cmd[j].st \in {"aborted", "discarded", "ran"} /\ m.cmd[j].p # 0 /\ m.cmd[j].p # p
                                        /\ ~PayRec(m, m.cmd[j].p).dropped
                                        /\ \E k \in rd : m.cmd[k].s = m.cmd[j].s /\ EvClass(m.cmd[k].kind) = EvClass(m.cmd[j].kind) }
-        tol == pr0.out > 0 /\ ~pr0.taken /\ rs # {}
-        j == CHOOSE j \in rs : TRUE
-        k == CHOOSE k \in rd : m.cmd[k].s = m.cmd[j].s /\ EvClass(m.cmd[k].kind) = EvClass(m.cmd[j].kind)
-        mS == IF tol
-              THEN LET pj == m.cmd[j].p
-                       m0 == SwapData(m, j, k)
-                   IN [m0 EXCEPT !.pay = Put(Put(@, o.p, [pr0 EXCEPT !.out = @ - 1]), pj, [PayRec(m, pj) EXCEPT !.out = @ + 1])]
-              ELSE m
+    IN IF ~(pr0.out > 0 /\ ~pr0.taken /\ rs # {}) THEN m
+       ELSE LET j == CHOOSE j \in rs : TRUE
+                k == CHOOSE k \in rd : m.cmd[k].s = m.cmd[j].s /\ EvClass(m.cmd[k].kind) = EvClass(m.cmd[j].kind)
+                pj == m.cmd[j].p
+                m0 == SwapData(m, j, k)
+            IN DropExchange([m0 EXCEPT !.pay = Put(Put(@, p, [pr0 EXCEPT !.out = @ - 1]), pj, [PayRec(m, pj) EXCEPT !.out = @ + 1])], p)
+
+OnDrop(m, o) ==
+    LET mS == DropExchange(m, o.p)
         pr == PayRec(mS, o.p)
         m1 == Chk(mS, ~pr.dropped, "C05", "payload dropped twice")
         m2 == Chk(m1, pr.out = 0 \/ pr.taken, "C05", "payload dropped while a scheduled reader has yet to run")
@@ -782,7 +788,7 @@ OnQuiesce(m, o) ==
         \* entity world reactor local data presence
         elok == \A e \in m.aliveE : (e \in Elems(o.elocal)) <=> (Get(m.elocal, e, 0) # 0)
         m14 == Chk(m13, m.neworld = 0 \/ elok, "C16", "entity world reactor local data present/absent against its triggers")
-    IN [m14 EXCEPT !.drvlast = 0]
+    IN [m14 EXCEPT !.drvlast = 0, !.taintsys = {}]
 
 (* a panic that escaped from a driver step: the tree did not run to completion, whatever it held is never released *)
 OnPanic(m, o) ==
